@@ -92,3 +92,39 @@ def run_big(repo, cache):
                                    % (sub, p.returncode, first, got[first] if first < len(got) else None, want[first] if first < len(want) else None,
                                       (' (' + p.stderr.strip().split('\n')[-1][:200] + ')') if p.returncode != 0 and p.stderr.strip() else ''))
     return out
+
+
+def run_api(repo, cache):
+    """harness/api_probe: the rarely used API surface against the commonly used entry points, debug and release builds."""
+    out = dict(error=None, failures=[], builds=0, checks=0)
+    probe = os.path.join(ROOT, 'harness', 'api_probe')
+    toml = os.path.join(probe, 'Cargo.toml')
+    t = open(toml).read()
+    t2 = re.sub(r'gecs = \{ path = "[^"]*"', 'gecs = { path = "%s"' % repo, t)
+    if t2 != t:
+        open(toml, 'w').write(t2)
+    if not os.path.exists(os.path.join(probe, 'Cargo.lock')):
+        subprocess.run(['cp', os.path.join(repo, 'Cargo.lock'), os.path.join(probe, 'Cargo.lock')])
+    tdir = os.path.join(cache, 'target-api')
+    for profile, sub in (('', 'debug'), ('--release', 'release')):
+        r = subprocess.run('cargo build --offline %s --target-dir %s' % (profile, tdir), shell=True, cwd=probe, capture_output=True, text=True,
+                           env=dict(os.environ, CARGO_NET_OFFLINE='true'))
+        if r.returncode != 0:
+            errs = [l for l in r.stderr.split('\n') if l.startswith('error')][:3]
+            if any('could not compile `gecs`' in e for e in errs) or not errs:
+                out['error'] = r.stderr[-1200:]
+                return out
+            out['failures'].append('[%s build] a legal client program using the whole API surface does not compile: %s' % (sub, ' | '.join(errs)))
+            continue
+        p = subprocess.run([os.path.join(tdir, sub, 'api_probe')], capture_output=True, text=True, timeout=600)
+        out['builds'] += 1
+        lines = [l for l in p.stdout.split('\n') if l]
+        done = [l for l in lines if l.startswith('done ')]
+        if done:
+            out['checks'] += int(done[0].split()[1])
+        for l in lines:
+            if l.startswith('bad '):
+                out['failures'].append('[%s build] %s' % (sub, l[4:]))
+        if not done:
+            out['failures'].append('[%s build] the API probe died: exit %d %s' % (sub, p.returncode, p.stderr.strip().split('\n')[-1][:200] if p.stderr.strip() else ''))
+    return out
